@@ -150,6 +150,10 @@ func c09S1One(env *fw.Env, cs c09S1Case) {
 		var addr string
 		if addr, err = trk.ListenAddr(10 * time.Second); err == nil {
 			pconn, err = net.DialTimeout("tcp4", addr, 5*time.Second)
+			if err == nil && peer.IsSelfConn(pconn) {
+				_ = pconn.Close()
+				err = peer.ErrSelfConnect
+			}
 		}
 	}
 	if err != nil || !waitFor(10*time.Second, func() bool { return conn.State() == hsms.SelectedState }) {
